@@ -95,6 +95,24 @@ func mapHelpers(c *Ctx) map[*ssa.Function]bool {
 			}
 		})
 	}
+	// wrappers: (map, key) functions that hand both on to a map helper (e.g. extractString -> extractAs[string])
+	for iter := 0; iter < 3; iter++ {
+		for _, fn := range c.P.LibFns {
+			if out[fn] || len(fn.Params) != 2 || fn.Signature.Recv() != nil {
+				continue
+			}
+			ir.EachCall(fn, func(call ssa.CallInstruction) {
+				sc := ir.StaticCallee(call)
+				if sc == nil || !out[sc] {
+					return
+				}
+				args := call.Common().Args
+				if len(args) == 2 && args[0] == ssa.Value(fn.Params[0]) && args[1] == ssa.Value(fn.Params[1]) {
+					out[fn] = true
+				}
+			})
+		}
+	}
 	return out
 }
 
@@ -301,8 +319,10 @@ func checkC02(c *Ctx) {
 		}
 		for _, d := range rdec {
 			read := map[string]bool{}
-			for _, kr := range keysRead(d, helpers) {
-				read[kr.key] = true
+			for _, part := range staticClosure(c, d, 2) {
+				for _, kr := range keysRead(part, helpers) {
+					read[kr.key] = true
+				}
 			}
 			for _, T := range c.P.Implementers(rcI.Underlying().(*types.Interface)) {
 				decodersChecked[d] = T
